@@ -144,7 +144,7 @@ var _ TraceSentRecord = (*cuckooDroppedRecord)(nil)
 
 type cuckooSentCache struct {
 	met              metrics.Metrics
-	kept             *lru.Cache[string, *keptTraceCacheEntry]
+	kept             atomic.Pointer[lru.Cache[string, *keptTraceCacheEntry]]
 	dropped          *CuckooTraceChecker
 	recentDroppedIDs *generics.SetWithTTL[string]
 	cfg              config.SampleCacheConfig
@@ -192,13 +192,13 @@ func NewCuckooSentCache(cfg config.SampleCacheConfig, met metrics.Metrics) (Trac
 
 	cache := &cuckooSentCache{
 		met:              met,
-		kept:             stc,
 		dropped:          dropped,
 		recentDroppedIDs: recentDroppedIDs,
 		cfg:              cfg,
 		keptReasons:      NewKeptReasonsCache(met),
 		done:             make(chan struct{}),
 	}
+	cache.kept.Store(stc)
 	cache.shutdownWG.Add(1)
 	go cache.monitor()
 	return cache, nil
@@ -236,7 +236,7 @@ func (c *cuckooSentCache) Record(trace KeptTrace, keep bool, reason string) {
 		trace.SetKeptReason(c.keptReasons.Set(reason))
 		sentRecord := NewKeptTraceCacheEntry(trace)
 
-		c.kept.Add(trace.ID(), sentRecord)
+		c.kept.Load().Add(trace.ID(), sentRecord)
 
 		return
 	}
@@ -258,7 +258,7 @@ func (c *cuckooSentCache) CheckSpan(span *types.Span) (TraceSentRecord, string, 
 		// we recognize it as dropped, so just say so; there's nothing else to do
 		return &cuckooDroppedRecord{}, "", true
 	}
-	if sentRecord, found := c.kept.Get(span.TraceID); found {
+	if sentRecord, found := c.kept.Load().Get(span.TraceID); found {
 		// if we kept it, then this span being checked needs counting too
 		sentRecord.Count(span)
 		reason, _ := c.keptReasons.Get(uint(sentRecord.reason))
@@ -279,17 +279,18 @@ func (c *cuckooSentCache) Resize(cfg config.SampleCacheConfig) error {
 	// what will fit in the new one, discard the oldest ones
 	// (we don't have to do anything with the ones we discard, this is
 	// the trace decisions cache).
-	keys := c.kept.Keys()
+	old := c.kept.Load()
+	keys := old.Keys()
 	if len(keys) > keptSize {
 		keys = keys[len(keys)-keptSize:]
 	}
 	// copy all the keys to the new cache in order
 	for _, k := range keys {
-		if v, found := c.kept.Get(k); found {
+		if v, found := old.Get(k); found {
 			stc.Add(k, v)
 		}
 	}
-	c.kept = stc
+	c.kept.Store(stc)
 
 	// also set up the drop cache size to change eventually
 	c.dropped.SetNextCapacity(cfg.GetDroppedSizePerWorker())
@@ -312,7 +313,7 @@ func (c *cuckooSentCache) CheckTrace(traceID string) (TraceSentRecord, string, b
 		// we recognize it as dropped, so just say so; there's nothing else to do
 		return &cuckooDroppedRecord{}, "", true
 	}
-	if sentRecord, found := c.kept.Get(traceID); found {
+	if sentRecord, found := c.kept.Load().Get(traceID); found {
 		reason, _ := c.keptReasons.Get(uint(sentRecord.reason))
 		return sentRecord, reason, true
 	}
